@@ -1,4 +1,5 @@
 import SpecVerif.Proofs.Lemmas.Burg
+import SpecVerif.Proofs.Lemmas.SchurCohn
 import Mathlib.Algebra.Star.Rat
 /-
   C13 — Burg's method (`arburg`, model in `SpecVerif/Model/Burg.lean`).
@@ -13,6 +14,11 @@ import Mathlib.Algebra.Star.Rat
   quotient by `den_i`).
 
   Property theorems only (helper lemmas live in `Proofs/Lemmas/Burg.lean`, namespace `BurgL`).
+
+  Stability is now PROVED for every order (last section, `burg_stable`): with non-degenerate stages
+  all roots of the Burg polynomial `z^p + a_1 z^{p-1} + … + a_p` lie in the closed unit disc
+  (`|k_i| ≤ 1`), and strictly inside the unit circle when all `|k_i| < 1` — by the Schur–Cohn theorem
+  for the step-up recursion (`Proofs/Lemmas/SchurCohn.lean`, namespace `SpecVerif.SchurL`).
 -/
 namespace SpecVerif.C13
 open Finset SpecVerif SpecVerif.BurgL
@@ -388,4 +394,74 @@ theorem burg_main [ReOrd 𝕜] (x : List 𝕜) (p : ℕ) (useCrit : Bool) (stop 
     exact ⟨re_rho_antitone x m q hm (by omega) hDq, burgRun_ref_take x m q hm⟩
 
 end RC
+/-! ### stability for every order (Schur–Cohn) -/
+section Stability
+variable {𝕜 : Type} [RCLike 𝕜]
+
+/-- **Burg is stable, every order**: under the hypotheses of `burg_ref_le_one` (order `p ≤ N`,
+non-degenerate stages `den_i ≠ 0`, `i < p`) every root `z` of the Burg prediction polynomial
+`A(z) = z^p + a_1 z^{p-1} + … + a_p` (`[1, a_1..a_p]` handed to `numpy.roots`, i.e.
+`SchurL.polyA (burgRun x p).a z`) satisfies `|z| ≤ 1`; and if in addition every returned reflection
+coefficient has modulus `< 1`, then `|z| < 1`. -/
+theorem burg_stable (x : List 𝕜) (p : ℕ) (hp : p ≤ x.length)
+    (hD : ∀ i, i < p → (burgK (burgRun x i) x.length i).2 ≠ 0) (z : 𝕜)
+    (hz : z ^ p + ∑ j ∈ range p, nth (burgRun x p).a j * z ^ (p - 1 - j) = 0) :
+    ‖z‖ ≤ 1 ∧ ((∀ i, i < p → ‖nth (burgRun x p).ref i‖ < 1) → ‖z‖ < 1) := by
+  have hz' : z ^ p + ∑ j ∈ range p, nth (rc2poly (burgRun x p).ref 1).1 j * z ^ (p - 1 - j) = 0 := by
+    rw [← burgRun_a_eq_rc2poly x p 1]
+    exact hz
+  exact ⟨SchurL.rc2poly_root_le_one _ 1 p (burgRun_ref_length x p) (burg_ref_le_one x p hp hD) z hz',
+    fun hk => SchurL.rc2poly_root_lt_one _ 1 p (burgRun_ref_length x p) hk z hz'⟩
+
+/-- the strict statement needs no non-degeneracy hypothesis: whenever all returned reflection
+coefficients have modulus `< 1`, the Burg polynomial has no zero on or outside the unit circle
+(helper definition `SchurL.polyA a z = z^m + Σ_{j<m} a_j z^{m-1-j}`) -/
+theorem burg_stable_polyA (x : List 𝕜) (p : ℕ) (hk : ∀ i, i < p → ‖nth (burgRun x p).ref i‖ < 1)
+    (z : 𝕜) (hz : 1 ≤ ‖z‖) : SchurL.polyA (burgRun x p).a z ≠ 0 := by
+  rw [burgRun_a_eq_rc2poly x p 1]
+  exact SchurL.stable_of_refl_lt_one _ 1
+    (SchurL.forall_mem_of_forall_nth _ p (burgRun_ref_length x p) hk) z hz
+
+/-- closed-disc statement with the helper definition: under the hypotheses of `burg_ref_le_one` the
+Burg polynomial has no zero strictly outside the unit circle -/
+theorem burg_closed_disc_polyA (x : List 𝕜) (p : ℕ) (hp : p ≤ x.length)
+    (hD : ∀ i, i < p → (burgK (burgRun x i) x.length i).2 ≠ 0) (z : 𝕜) (hz : 1 < ‖z‖) :
+    SchurL.polyA (burgRun x p).a z ≠ 0 := by
+  rw [burgRun_a_eq_rc2poly x p 1]
+  exact SchurL.ne_zero_of_refl_le_one _ 1
+    (SchurL.forall_mem_of_forall_nth _ p (burgRun_ref_length x p) (burg_ref_le_one x p hp hD)) z hz
+
+/-- **no pole on the frequency grid** when all `|k_i| < 1`: `1 + a_1 w + … + a_p w^p ≠ 0` for
+`|w| ≤ 1` (the polynomial evaluated by the PSD code) -/
+theorem burg_no_unit_zeros (x : List 𝕜) (p : ℕ) (hk : ∀ i, i < p → ‖nth (burgRun x p).ref i‖ < 1)
+    (w : 𝕜) (hw : ‖w‖ ≤ 1) : 1 + ∑ j ∈ range p, nth (burgRun x p).a j * w ^ (j + 1) ≠ 0 := by
+  rw [burgRun_a_eq_rc2poly x p 1]
+  exact SchurL.rc2poly_rev_ne_zero _ 1 p (burgRun_ref_length x p) hk w hw
+
+/-- non-vacuity of `burg_stable`: `x = [1, 2, 1]` over `ℝ`, order 2; `den_0 = 10`, `den_1 = 18/25`
+are non-zero (the reflection coefficients are `-4/5`, `-1`: the closed disc cannot be improved here) -/
+example : 2 ≤ ([1, 2, 1] : List ℝ).length ∧
+    ∀ i, i < 2 → (burgK (burgRun ([1, 2, 1] : List ℝ) i) ([1, 2, 1] : List ℝ).length i).2 ≠ 0 := by
+  refine ⟨by simp, ?_⟩
+  intro i hi
+  have : i = 0 ∨ i = 1 := by omega
+  rcases this with rfl | rfl
+  · simp [burgRun, burgInit, burgK, nth, abs2, Finset.sum_range_succ]
+    norm_num
+  · simp [burgRun, burgInit, burgK, burgStep, nth, abs2, vec, List.range_succ, Finset.sum_range_succ]
+    norm_num
+
+/-- non-vacuity of the strict clause: order 1 of the same data has `k_0 = -4/5` -/
+example : ∀ i, i < 1 → ‖nth (burgRun ([1, 2, 1] : List ℝ) 1).ref i‖ < 1 := by
+  intro i hi
+  have : i = 0 := by omega
+  subst this
+  have h : nth (burgRun ([1, 2, 1] : List ℝ) 1).ref 0 = -4 / 5 := by
+    simp [burgRun, burgInit, burgK, burgStep, nth, abs2, Finset.sum_range_succ]
+    norm_num
+  rw [h, Real.norm_eq_abs, abs_lt]
+  constructor <;> norm_num
+
+end Stability
+
 end SpecVerif.C13
